@@ -181,6 +181,10 @@ names = ["OverflowError", "ZeroDivisionError", "AssertionError", "IndexError", "
 with open(inp) as f:
     items = json.load(f)
 start = int(sys.argv[5])
+sanlog = os.environ.get("C30_SANLOG")
+if sanlog:
+    sanlog = "%s.%d" % (sanlog, os.getpid())
+seen = 0
 out = open(outp, "a")
 for i in range(start, len(items)):
     s = items[i]
@@ -198,20 +202,59 @@ for i in range(start, len(items)):
                     cls = k.__name__
                     break
         msg = (str(e).splitlines() or [""])[0][:80]
+    if sanlog and os.path.exists(sanlog) and os.path.getsize(sanlog) > seen:
+        # a sanitizer report was written while this input was processed (recover mode)
+        with open(sanlog, errors="replace") as f:
+            f.seek(seen)
+            rep = f.read()
+        seen = os.path.getsize(sanlog)
+        cls, msg = "crash", "SANITIZER-REPORT\n" + rep[:6000]
     out.write("E %d %s\n" % (i, json.dumps([cls, msg]))); out.flush()
 out.close()
 '''
 
 
-def asan_env(backend_dir):
+def asan_env(backend_dir, logdir):
     rt = subprocess.run(["clang", "-print-file-name=libclang_rt.asan-x86_64.so"], capture_output=True, text=True).stdout.strip()
     env = core.sub_env()
     env["PYTHONPATH"] = backend_dir + os.pathsep + os.path.join(core.REPO, "src")
     env["LD_PRELOAD"] = rt
-    env["ASAN_OPTIONS"] = "detect_leaks=0:abort_on_error=1:allocator_may_return_null=1:handle_segv=1"
-    env["UBSAN_OPTIONS"] = "halt_on_error=1:abort_on_error=1:print_stacktrace=1"
+    # recover mode: a report is written to C30_SANLOG.<pid> and the process goes on, so that one known
+    # defect does not cost a process start per input; a real crash (SIGSEGV) still ends the worker
+    env["C30_SANLOG"] = os.path.join(logdir, "sanlog")
+    env["ASAN_OPTIONS"] = ("detect_leaks=0:halt_on_error=0:allocator_may_return_null=1:handle_segv=1:"
+                           "log_path=%s" % env["C30_SANLOG"])
+    env["UBSAN_OPTIONS"] = "halt_on_error=0:print_stacktrace=1:log_path=%s" % env["C30_SANLOG"]
     env["PYTHONMALLOC"] = "malloc"
     return env
+
+
+def sanitizer_summary(stderr):
+    """the lines of a sanitizer report that say what and where (else the tail of stderr)"""
+    keep = []
+    for line in stderr.splitlines():
+        t = line.strip()
+        if ("ERROR: AddressSanitizer" in t or "runtime error:" in t or t.startswith("SUMMARY:") or
+                t.startswith(("READ of size", "WRITE of size")) or
+                (t.startswith("#") and len(keep) < 12 and t[1:2].isdigit())):
+            keep.append(t)
+    return " | ".join(keep)[:1500] if keep else stderr[-800:]
+
+
+def crash_site(msg):
+    """'<kind>@<function>' of a sanitizer summary: the first frame inside the backend sources"""
+    import re
+    kind = "crash"
+    m = re.search(r"AddressSanitizer: ([\w-]+)", msg)
+    if m:
+        kind = m.group(1)
+    elif "runtime error:" in msg:
+        kind = "ubsan"
+    fn = "?"
+    m = re.search(r"SUMMARY: \w+: [\w-]+ \S+ in (\w+)", msg) or re.search(r"#0 0x[0-9a-f]+ in (\w+)", msg)
+    if m:
+        fn = m.group(1)
+    return "%s@%s" % (kind, fn)
 
 
 def run_compiled(workdir, modname, strings, env=None, tag="c", timeout=1200):
@@ -239,14 +282,17 @@ def run_compiled(workdir, modname, strings, env=None, tag="c", timeout=1200):
                     begun = int(line.split()[1])
                 elif line.startswith("E "):
                     _e, i, js = line.rstrip("\n").split(" ", 2)
-                    res[int(i)] = tuple(json.loads(js))
+                    cls_, msg_ = json.loads(js)
+                    if msg_.startswith("SANITIZER-REPORT"):
+                        msg_ = sanitizer_summary(msg_)
+                    res[int(i)] = (cls_, msg_)
         if r.returncode == 0 and all(x is not None for x in res[start:]):
             break
         if begun < start and r.returncode != 0:
             raise core.MachineryError("compiled-FFI worker failed before its first input (rc=%s):\n%s" % (
                 r.returncode, r.stderr[-2000:]))
         if res[begun] is None:
-            res[begun] = ("crash", "rc=%s %s" % (r.returncode, r.stderr[-1500:]))
+            res[begun] = ("crash", "rc=%s %s" % (r.returncode, sanitizer_summary(r.stderr)))
             crashes += 1
             if crashes > 50:
                 raise core.MachineryError("more than 50 crashes of the compiled-FFI worker; last:\n" + r.stderr[-1500:])
